@@ -183,3 +183,74 @@ func VerifFeatRef(it Features, i int) int { return 0 }
 // VerifComparable: b6.Less and b6.Equal accept the two values (same comparable kind).
 // Uninterpreted; it only appears as an assumption of contracts.
 func VerifComparable(a interface{}, b interface{}) bool { return true }
+
+// ---- C03: k-way merge of feature streams (bounded shapes) ------------------------------------
+// vIDStream is a b6.Features over a fixed list of IDs (no feature bodies), used to drive
+// the real mergedFeatures and the standard library's container/heap (executed as loaded).
+type vIDStream struct {
+	ids []uint64
+	i   int
+}
+
+func (s *vIDStream) Next() bool {
+	if s.i+1 >= len(s.ids) {
+		s.i = len(s.ids)
+		return false
+	}
+	s.i++
+	return true
+}
+func (s *vIDStream) Feature() Feature { return nil }
+func (s *vIDStream) FeatureID() FeatureID {
+	return FeatureID{Type: FeatureTypePath, Namespace: NamespaceOSMWay, Value: s.ids[s.i]}
+}
+
+func verifHelper_C03_is(f Features, v uint64) bool {
+	id := f.FeatureID()
+	return id.Type == FeatureTypePath && id.Namespace == NamespaceOSMWay && id.Value == v
+}
+
+// Five streams (one of them empty, not in heap order, IDs shared by up to three
+// streams): the merge yields every ID once, in strictly increasing order, then ends.
+func verifLemma_C03_merge_five_streams() {
+	m := MergeFeatures(
+		&vIDStream{ids: []uint64{5, 8}, i: -1},
+		&vIDStream{ids: []uint64{3, 5, 7}, i: -1},
+		&vIDStream{ids: []uint64{}, i: -1},
+		&vIDStream{ids: []uint64{2, 6, 9}, i: -1},
+		&vIDStream{ids: []uint64{1, 5}, i: -1})
+	verifrt.Assert(m.Next() && verifHelper_C03_is(m, 1), "first")
+	verifrt.Assert(m.Next() && verifHelper_C03_is(m, 2), "second")
+	verifrt.Assert(m.Next() && verifHelper_C03_is(m, 3), "third")
+	verifrt.Assert(m.Next() && verifHelper_C03_is(m, 5), "id-in-three-streams")
+	verifrt.Assert(m.Next() && verifHelper_C03_is(m, 6), "returned-once")
+	verifrt.Assert(m.Next() && verifHelper_C03_is(m, 7), "sixth")
+	verifrt.Assert(m.Next() && verifHelper_C03_is(m, 8), "seventh")
+	verifrt.Assert(m.Next() && verifHelper_C03_is(m, 9), "eighth")
+	verifrt.Assert(!m.Next(), "exhausted")
+	verifrt.Assert(!m.Next(), "stays-exhausted")
+}
+
+// A stream that ends while it is the smallest: the remaining streams stay ordered.
+func verifLemma_C03_merge_stream_ends_at_root() {
+	m := MergeFeatures(
+		&vIDStream{ids: []uint64{5}, i: -1},
+		&vIDStream{ids: []uint64{6, 10}, i: -1},
+		&vIDStream{ids: []uint64{7, 8}, i: -1},
+		&vIDStream{ids: []uint64{9}, i: -1})
+	verifrt.Assert(m.Next() && verifHelper_C03_is(m, 5), "first")
+	verifrt.Assert(m.Next() && verifHelper_C03_is(m, 6), "second")
+	verifrt.Assert(m.Next() && verifHelper_C03_is(m, 7), "third")
+	verifrt.Assert(m.Next() && verifHelper_C03_is(m, 8), "fourth")
+	verifrt.Assert(m.Next() && verifHelper_C03_is(m, 9), "fifth")
+	verifrt.Assert(m.Next() && verifHelper_C03_is(m, 10), "sixth")
+	verifrt.Assert(!m.Next(), "exhausted")
+}
+
+// Nothing to merge, and only empty streams.
+func verifLemma_C03_merge_empty() {
+	verifrt.Assert(!MergeFeatures().Next(), "no-streams")
+	m := MergeFeatures(&vIDStream{ids: []uint64{}, i: -1}, &vIDStream{ids: []uint64{}, i: -1})
+	verifrt.Assert(!m.Next(), "empty-streams")
+	verifrt.Assert(!m.Next(), "stays-empty")
+}
